@@ -13,8 +13,8 @@ import traceback
 
 from . import VERIF, REPO
 
-EVIDENCE_DIR = os.path.join(VERIF, 'evidence')
-REPLAY_DIR = os.path.join(VERIF, 'replays')
+EVIDENCE_DIR = os.environ.get('LV_EVIDENCE_DIR') or os.path.join(VERIF, 'evidence')   # overridden only by the mutant self-test
+REPLAY_DIR = os.environ.get('LV_REPLAY_DIR') or os.path.join(VERIF, 'replays')
 KNOWN_FILE = os.path.join(VERIF, 'known_findings.json')
 NPROC = int(os.environ.get('LV_NPROC', '0')) or min(16, os.cpu_count() or 1)
 
